@@ -24,13 +24,14 @@ VARIABLES l, scen,
           down,     \* shutdown was called
           sched,    \* search key -> [next, gap] : the doubling query schedule of an open search (C19)
           fu,       \* instance key -> [n, last] : follow-up queries of a found, unresolved instance (C04)
+          lack,     \* instance key -> [kind, since, asked] : what a found, unresolved instance lacks and whether it was asked for (C04.ask)
           verifs,   \* verify calls: {[fnk, hosts, at]}
           lastT,    \* time of the previous iteration
           ifs,      \* interface table of the daemon's host
           arrs,     \* expiry instants of all record arrivals whose lifetime has not passed yet (C20.timers-popped)
           inbox, cmds, viol, hits,
           streak    \* consecutive idle iterations whose requested wake-up is at most 1 ms ahead (C12.nospin)
-vars == <<streak, l, scen, tab, chan, cur, owedStop, down, sched, fu, verifs, lastT, ifs, arrs, inbox, cmds, viol, hits>>
+vars == <<streak, l, scen, tab, chan, cur, owedStop, down, sched, fu, lack, verifs, lastT, ifs, arrs, inbox, cmds, viol, hits>>
 
 Ev == Rec[l]
 T  == Ev.t
@@ -66,9 +67,9 @@ Ingest(t, ds) ==
 (* ------------------------------ commands -------------------------------- *)
 NewBrowse(c) == [kind |-> "browse", ty |-> c.args.ty, key |-> c.args.tyk, st |-> "fresh", bound |-> TRUE,
                  cacheonly |-> c.fn = "browse_cache", found |-> {}, ever |-> {}, resolved |-> {},
-                 removedAt |-> <<>>, at |-> T, stoppedAt |-> 0]
+                 removedAt |-> <<>>, foundAt |-> <<>>, at |-> T, stoppedAt |-> 0]
 NewHost(c) == [kind |-> "host", ty |-> c.args.host, key |-> c.args.hostk, st |-> "fresh", bound |-> TRUE,
-               cacheonly |-> FALSE, found |-> {}, ever |-> {}, resolved |-> {}, removedAt |-> <<>>, at |-> T,
+               cacheonly |-> FALSE, found |-> {}, ever |-> {}, resolved |-> {}, removedAt |-> <<>>, foundAt |-> <<>>, at |-> T,
                stoppedAt |-> 0, deadline |-> IF c.args.timeout >= 0 THEN T + c.args.timeout ELSE -1]
 
 (* s : [tab, chan, cur, owedStop, down]                                      *)
@@ -108,6 +109,8 @@ ApplyCmd(s, c) ==
          [s EXCEPT !.tab = Shorten(s.tab, c.args.fnk, T + c.args.timeout, T),
                    !.verifs = s.verifs \cup {[fnk |-> c.args.fnk,
                                                hosts |-> {s.tab[id].tk : id \in {x \in Dom(s.tab) : x[1] = "SRV" /\ x[2] = c.args.fnk /\ T < s.tab[x].exp /\ s.tab[x].forus}},
+                                               \* (what the daemon MAY ask for: the hosts of any SRV it may hold for the instance)
+                                               anyhosts |-> {s.tab[id].tk : id \in {x \in Dom(s.tab) : x[1] = "SRV" /\ x[2] = c.args.fnk}},
                                                at |-> T]}]
     [] c.fn = "shutdown" /\ c.res = "ok" ->
          [s EXCEPT !.down = TRUE, !.sched = <<>>,
@@ -127,6 +130,26 @@ LiveAt(t, tyk, fnk, at) ==
 LiveForUsAt(t, tyk, fnk, at) ==
   /\ \E p \in PtrIds(t, tyk, fnk, at) : t[p].forus
   /\ \E id \in SrvIds(t, fnk, at) : t[id].forus /\ \E a \in AddrIds(t, t[id].tk, at) : t[a].forus /\ at < t[a].vexp
+
+(* live by TTL alone (what a verify request shortened does not count), for-us records only *)
+NatExp(e) == e.at + LifeMs(e.ttl)
+NaturalLive(t, tyk, fnk, at) ==
+  /\ \E p \in Dom(t) : p[1] = "PTR" /\ p[2] = tyk /\ t[p].tk = fnk /\ t[p].forus /\ t[p].ttl # 0 /\ at < t[p].exp
+  /\ \E id \in Dom(t) : /\ id[1] = "SRV" /\ id[2] = fnk /\ t[id].forus /\ t[id].ttl # 0 /\ at < NatExp(t[id])
+                         /\ \E a \in Dom(t) : IsAddrTy(a[1]) /\ a[2] = t[id].tk /\ t[a].forus /\ t[a].ttl # 0 /\ at < NatExp(t[a])
+(* the instant from which the instance is no longer described by live records: the first of its PTR, its last SRV, *)
+(* the last address of its hosts to go (a large number while nothing of a kind was ever heard)                     *)
+MaxOr(S, d) == IF S = {} THEN d ELSE CHOOSE x \in S : \A y \in S : y <= x
+MinOf3(a, b, c) == IF a <= b /\ a <= c THEN a ELSE IF b <= c THEN b ELSE c
+(* records received in packets for us only; SRV and addresses count only for an instance that was reported resolved *)
+GoneAt(t, tyk, fnk, wasResolved) ==
+  LET onlyFu(S) == {x \in S : t[x].forus}
+      ptrEnd == MaxOr({t[p].exp : p \in onlyFu({x \in Dom(t) : x[1] = "PTR" /\ x[2] = tyk /\ t[x].tk = fnk})}, 2000000000)
+      srvs == onlyFu({x \in Dom(t) : x[1] = "SRV" /\ x[2] = fnk})
+      srvEnd == MaxOr({t[x].exp : x \in srvs}, 2000000000)
+      hosts == {t[x].tk : x \in srvs}
+      adrEnd == MaxOr({t[a].exp : a \in onlyFu({x \in Dom(t) : IsAddrTy(x[1]) /\ x[2] \in hosts})}, 2000000000)
+  IN IF wasResolved THEN MinOf3(ptrEnd, srvEnd, adrEnd) ELSE ptrEnd
 
 RelatedNewer(t, tyk, fnk, hostk, since) ==
   \E id \in Dom(t) : /\ t[id].at >= since
@@ -148,7 +171,7 @@ StepEv(s, t, e) ==
   IF c.kind = "browse" THEN
     CASE e.k = "SearchStarted" -> upd([c EXCEPT !.st = IF c.st = "fresh" THEN "started" ELSE c.st], afterStop)
       [] e.k = "ServiceFound" ->
-           upd([c EXCEPT !.found = c.found \cup {e.fnk}, !.ever = c.ever \cup {e.fnk}],
+           upd([c EXCEPT !.found = c.found \cup {e.fnk}, !.ever = c.ever \cup {e.fnk}, !.foundAt = Put(c.foundAt, e.fnk, T)],
                afterStop \cup first
                \cup V("C03.found-live", PtrIds(t, c.key, e.fnk, T) # {}, <<"ServiceFound without a live PTR", e.fnk>>)
                \cup V("C04.labels", e.ty = c.ty, <<"type of the event", e.ty, c.ty>>))
@@ -156,7 +179,10 @@ StepEv(s, t, e) ==
            upd([c EXCEPT !.resolved = c.resolved \cup {e.fnk}, !.found = c.found \cup {e.fnk},
                          !.removedAt = Del(c.removedAt, {e.fnk})],
                afterStop \cup first
-               \cup V("C13.found-first", e.fnk \in c.ever, <<"ServiceResolved before ServiceFound", e.fnk>>)
+               \cup V("C13.found-first", e.fnk \in c.ever,
+                      <<IF \E y \in Dom(s.chan) : y # e.ch /\ s.chan[y].kind = "browse" /\ s.chan[y].key = c.key /\ s.chan[y].at < c.at /\ e.fnk \in s.chan[y].ever
+                        THEN "instance already reported on an earlier channel of this type is resolved on the channel that replaced it without ServiceFound (its PTR was in its last second when the type was browsed again)"
+                        ELSE "ServiceResolved before ServiceFound", e.fnk>>)
                \cup V("C03.ptr", PtrIds(t, c.key, e.fnk, T) # {}, <<"resolved without a live PTR", e.fnk>>)
                \cup V("C03.srv", \E id \in SrvIds(t, e.fnk, T) : t[id].tk = e.hostk /\ t[id].port = e.port /\ t[id].tu = e.host,
                       <<"host/port not from a live SRV", e.fnk, e.host, e.port>>)
@@ -174,7 +200,17 @@ StepEv(s, t, e) ==
            upd([c EXCEPT !.found = c.found \ {e.fnk}, !.resolved = c.resolved \ {e.fnk},
                          !.removedAt = Put(c.removedAt, e.fnk, T)],
                afterStop \cup first
-               \cup V("C05.premature", ~LiveForUsAt(t, c.key, e.fnk, T + 1000), <<"removed while PTR, SRV and address are live", e.fnk>>))
+               \cup V("C05.premature", ~LiveForUsAt(t, c.key, e.fnk, T + 1000), <<"removed while PTR, SRV and address are live", e.fnk>>)
+               \* a verify request takes the instance away at its deadline, not before (no TTL arithmetic, no grace involved)
+               \* (in an iteration without arrivals: when records arrive, the daemon looks at the cache again and treats what has
+               \* less than a second left as gone already - the one-second slack of the other clauses)
+               \cup V("C05.verify-early", inbox # <<>> \/ ~(NaturalLive(t, c.key, e.fnk, T + 1000) /\ \E id \in Dom(t) : id[1] = "SRV" /\ id[2] = e.fnk /\ t[id].vdl > T),
+                      <<"removed before the deadline of the verify request", e.fnk, T>>)
+               \* delivered when due (goodbye + 1 s, expiry, verify deadline), plus at most one scheduling step
+               \* (counted from the moment it was last reported found, if that is later)
+               \* (the first removal of an instance that is reported found; counted from the moment it was found, if that is later)
+               \cup V("C05.late", e.fnk \notin c.found \/ T <= GoneAt(t, c.key, e.fnk, e.fnk \in c.resolved) + 1500 \/ (e.fnk \in Dom(c.foundAt) /\ T <= c.foundAt[e.fnk] + 1500),
+                      <<"ServiceRemoved later than one second after the instance was gone", e.fnk, GoneAt(t, c.key, e.fnk, e.fnk \in c.resolved), T>>))
       [] e.k = "SearchStopped" ->
            [s EXCEPT !.chan = Put(s.chan, e.ch, [c EXCEPT !.st = "stopped"]),
                      !.owedStop = s.owedStop \ {e.ch},
@@ -236,14 +272,22 @@ ParkInvariants(ch, t) ==
     LET c == ch[x] IN
     IF c.kind = "browse" /\ c.bound /\ c.st = "started" /\ ~c.cacheonly THEN
          V("C04.resolve", CompleteForUs(t, c.key, T) \subseteq c.resolved,
-           <<"described by live received records but not resolved", CompleteForUs(t, c.key, T) \ c.resolved>>)
+           <<IF \A f \in CompleteForUs(t, c.key, T) \ c.resolved : \E y \in Dom(ch) : y # x /\ ch[y].kind = "browse" /\ ch[y].key = c.key /\ ch[y].at < c.at /\ f \in ch[y].ever
+             THEN "instance already reported on an earlier channel of this type is not reported on the channel that replaced it (its PTR was in its last second when the type was browsed again; later copies count as refreshes)"
+             ELSE IF \A f \in CompleteForUs(t, c.key, T) \ c.resolved : f \in Dom(c.removedAt)
+             THEN "instance that was reported removed while its PTR stayed cached is not reported again when copies of the same records arrive"
+             ELSE "described by live received records but not resolved", CompleteForUs(t, c.key, T) \ c.resolved>>)
          \cup V("C05.expiry", \A f \in c.found : \E id \in Dom(t) : id[1] = "PTR" /\ id[2] = c.key /\ t[id].tk = f /\ T < t[id].exp,
                 <<"PTR gone but no ServiceRemoved", {f \in c.found : ~\E id \in Dom(t) : id[1] = "PTR" /\ id[2] = c.key /\ t[id].tk = f /\ T < t[id].exp}>>)
          \* (while the PTR itself is in its last second the removal may come with the PTR's expiry)
          \cup V("C05.expiry-srv", \A f \in {g \in c.resolved : \E p \in Dom(t) : p[1] = "PTR" /\ p[2] = c.key /\ t[p].tk = g /\ T + 1000 < t[p].exp} :
                                      \E s \in Dom(t) : /\ s[1] = "SRV" /\ s[2] = f /\ T < t[s].exp
                                                                        /\ \E a \in Dom(t) : IsAddrTy(a[1]) /\ a[2] = t[s].tk /\ T < t[a].exp,
-                <<"SRV or last address gone but no ServiceRemoved",
+                <<IF \A f \in {g \in c.resolved : ~\E s \in Dom(t) : /\ s[1] = "SRV" /\ s[2] = g /\ T < t[s].exp
+                                                                  /\ \E a \in Dom(t) : IsAddrTy(a[1]) /\ a[2] = t[s].tk /\ T < t[a].exp} :
+                        \E y \in Dom(ch) : y # x /\ ch[y].kind = "browse" /\ ch[y].bound /\ ch[y].key # c.key /\ f \in ch[y].ever
+                  THEN "instance browsed under its type and under a subtype: when its SRV or last address is gone the removal is reported on one of the two channels only"
+                  ELSE "SRV or last address gone but no ServiceRemoved",
                   {f \in c.resolved : ~\E s \in Dom(t) : /\ s[1] = "SRV" /\ s[2] = f /\ T < t[s].exp
                                                          /\ \E a \in Dom(t) : IsAddrTy(a[1]) /\ a[2] = t[s].tk /\ T < t[a].exp}>>)
     ELSE IF c.kind = "host" /\ c.bound /\ c.st = "started" THEN
@@ -300,7 +344,7 @@ Explain(s, ch, X) ==
       fuOk == (fuInst \/ fuHost) /\ (fuKey \notin Dom(s.fu) \/ (s.fu[fuKey].n < 3 /\ (T >= s.fu[fuKey].last + 500 \/ s.fu[fuKey].last = T)))
       verOk == \E v \in s.verifs : /\ (T = v.at \/ (lastT < v.at + 1000 /\ v.at + 1000 <= T))
                                  /\ \/ (X[2] = "SRV" /\ X[1] = v.fnk)
-                                    \/ (X[2] = "ADDR" /\ X[1] \in v.hosts)
+                                    \/ (X[2] = "ADDR" /\ X[1] \in v.anyhosts)
       \* copies of one record under several letter cases of the owner name are refreshed independently
       caseCopies == \E id \in MatchIds(s.tab, X) : Cardinality(s.tab[id].us) > 1
       n == (IF schedDue THEN 1 ELSE 0) + Cardinality(refIds) + (IF fuOk THEN 1 ELSE 0) + (IF verOk THEN 1 ELSE 0)
@@ -406,7 +450,10 @@ QuestionLabels(t) ==
 CacheOnlyQuiet(ch) ==
   LET co == {ch[x].key : x \in {y \in Dom(ch) : ch[y].kind = "browse" /\ ch[y].bound /\ ch[y].cacheonly}}
       live == {ch[x].key : x \in {y \in Dom(ch) : ch[y].kind = "browse" /\ ch[y].bound /\ ~ch[y].cacheonly}}
-  IN UNION {V("C13.cacheonly", ~(X[2] = "PTR" /\ X[1] \in co \ live), <<"query for a type that is only browsed cache-only", X>>) : X \in AllQ}
+  IN UNION {V("C13.cacheonly", ~(X[2] = "PTR" /\ X[1] \in co \ live),
+              <<IF \E id \in Dom(tab) : id[1] = "PTR" /\ id[2] = X[1] /\ T < tab[id].exp /\ DueMarks(tab[id], T) # {}
+                THEN "refresh query (80-95 % of a PTR record's life) for a type that is only browsed cache-only"
+                ELSE "query for a type that is only browsed cache-only", X>>) : X \in AllQ}
 
 (* C10.everywhere: a scheduled search query leaves on every interface / family in use *)
 Paths == UNION {{<<x.idx, a.v4>> : a \in Range(x.addrs)} : x \in {y \in Range(ifs) : y.up}}
@@ -444,7 +491,9 @@ MetricsChecks(t, ch) ==
                 <<"timers grow with the number of record arrivals (two per arrival, kept until due), not with what searches need",
                   m["timer"], Cardinality({id \in Dom(t) : lastT < t[id].exp}), searches>>)
          \* everything expired, all searches stopped: nothing but the periodic interface check is left
-         \cup V("C20.empty", (searches = 0 /\ Len(arrs) = 0 /\ {id \in Dom(t) : lastT < t[id].exp} = {})
+         \* (judged once the last search has been stopped for five seconds: housekeeping timers of the stop itself have fired by then)
+         \cup V("C20.empty", (searches = 0 /\ Len(arrs) = 0 /\ {id \in Dom(t) : lastT < t[id].exp} = {}
+                               /\ \A y \in Dom(ch) : ch[y].stoppedAt + 5000 <= T)
                               => (m["timer"] <= 1 /\ m["cached-ptr"] = 0 /\ m["cached-srv"] = 0 /\ m["cached-txt"] = 0
                                   /\ m["cached-addr"] = 0 /\ m["cached-nsec"] = 0),
                 <<"state left although every TTL has passed and all searches are stopped", m["timer"], m["cached-ptr"], m["cached-srv"],
@@ -454,6 +503,26 @@ MetricsChecks(t, ch) ==
                 <<"timers are not popped / leak", m["timer"], Len(arrs)>>)
        ELSE {}
     : j \in {x \in 1..Len(Ev.replies) : Ev.replies[x].k = "metrics"}}
+
+(* C04.ask: a found instance that is not resolved is asked for - first its SRV / TXT, then, once an SRV is there, the  *)
+(* addresses of its host - within half a second (judged after one second), as long as its three follow-ups last        *)
+AskInsts(ch) == UNION {ch[x].found \ ch[x].resolved : x \in {y \in Dom(ch) : ch[y].kind = "browse" /\ ch[y].bound /\ ch[y].st = "started" /\ ~ch[y].cacheonly}}
+LiveFu(t, id) == t[id].forus /\ t[id].ttl # 0 /\ T < t[id].exp
+SrvOf(t, f) == {id \in Dom(t) : id[1] = "SRV" /\ id[2] = f /\ LiveFu(t, id)}
+LackKind(t, f) == IF SrvOf(t, f) = {} THEN "inst"
+                  ELSE IF ~\E a \in Dom(t) : IsAddrTy(a[1]) /\ a[2] \in {t[id].tk : id \in SrvOf(t, f)} /\ LiveFu(t, a) THEN "host" ELSE "none"
+AskedNow(t, f, k) == IF k = "inst" THEN \E X \in AllQ : X[1] = f /\ X[2] \in {"ANY", "SRV", "TXT"}
+                     ELSE IF k = "host" THEN \E X \in AllQ : X[2] \in {"ADDR", "ANY"} /\ X[1] \in {t[id].tk : id \in SrvOf(t, f)}
+                     ELSE TRUE
+LackStep(lk, t, ch) ==
+  [f \in {g \in AskInsts(ch) : \E id \in Dom(t) : id[1] = "PTR" /\ t[id].tk = g /\ LiveFu(t, id)} |->
+     LET k == LackKind(t, f)  a == AskedNow(t, f, k) IN
+     IF f \in Dom(lk) /\ lk[f].kind = k THEN [lk[f] EXCEPT !.asked = @ \/ a] ELSE [kind |-> k, since |-> T, asked |-> a]]
+AskOwed(lk, fu2) ==
+  UNION {V("C04.ask", lk[f].asked \/ lk[f].kind = "none" \/ T < lk[f].since + 1000 \/ (f \in Dom(fu2) /\ fu2[f].n >= 3),
+           <<IF lk[f].kind = "inst" THEN "found instance without SRV: its SRV / TXT were not asked for within a second"
+             ELSE "found instance whose SRV is known but no address: the host's addresses were not asked for within a second", f, lk[f].since, T>>)
+         : f \in Dom(lk)}
 
 IdleNow == Len(Ev.sent) = 0 /\ Len(Ev.events) = 0 /\ Len(Ev.replies) = 0 /\ inbox = <<>> /\ cmds = <<>>
                  /\ Ev.wake >= 0 /\ Ev.wake <= T + 1
@@ -477,12 +546,14 @@ Iter ==
        /\ owedStop' = s2.owedStop
        /\ sched' = AdvanceSched(s1.sched, s3.used)
        /\ fu' = [k \in Dom(s3.fu) \cap UnresolvedT(s2.chan, s3.tab) |-> s3.fu[k]]
+       /\ lack' = LackStep(lack, s3.tab, s2.chan)
        /\ verifs' = {v \in s1.verifs : T < v.at + 1001}
        /\ lastT' = T
        /\ arrs' = SelectSeq(arrs \o NewArrivals(inbox), LAMBDA x : x > T)
        /\ viol' = viol \cup SpinV \cup s2.v \cup s3.v
                     \cup (IF Ev.alive /\ ~s1.down THEN ParkInvariants(s2.chan, s1.tab) \cup SchedOwed(s1.sched, s3.used)
                                                        \cup MarksOwed(s1.tab, s3.tab, s2.chan)
+                                                       \cup AskOwed(LackStep(lack, s3.tab, s2.chan), s3.fu)
                                                        \cup WakeCover(s3.tab, s2.chan, AdvanceSched(s1.sched, s3.used), s3.fu, {v \in s1.verifs : T < v.at + 1000})
                           ELSE {})
                     \cup KnownAnswerChecks(s1.tab) \cup Everywhere(s3.used) \cup MetricsChecks(s1.tab, s2.chan)
@@ -499,24 +570,24 @@ Iter ==
 
 Reset == /\ Ev.e = "reset"
          /\ scen' = Ev.scen.id /\ tab' = <<>> /\ chan' = <<>> /\ cur' = <<>> /\ owedStop' = {} /\ down' = FALSE
-         /\ sched' = <<>> /\ fu' = <<>> /\ verifs' = {} /\ lastT' = 0 /\ ifs' = Ev.hosts[1] /\ arrs' = <<>>
+         /\ sched' = <<>> /\ fu' = <<>> /\ lack' = <<>> /\ verifs' = {} /\ lastT' = 0 /\ ifs' = Ev.hosts[1] /\ arrs' = <<>>
          /\ inbox' = <<>> /\ cmds' = <<>>
          /\ UNCHANGED <<viol, hits, streak>>
 Call == /\ Ev.e = "call"
         /\ cmds' = Append(cmds, Ev)
-        /\ UNCHANGED <<scen, tab, chan, cur, owedStop, down, sched, fu, verifs, lastT, ifs, arrs, inbox, viol, hits, streak>>
+        /\ UNCHANGED <<scen, tab, chan, cur, owedStop, down, sched, fu, lack, verifs, lastT, ifs, arrs, inbox, viol, hits, streak>>
 Deliver == /\ Ev.e = "deliver"
            /\ inbox' = Append(inbox, Ev)
-           /\ UNCHANGED <<scen, tab, chan, cur, owedStop, down, sched, fu, verifs, lastT, ifs, arrs, cmds, viol, hits, streak>>
+           /\ UNCHANGED <<scen, tab, chan, cur, owedStop, down, sched, fu, lack, verifs, lastT, ifs, arrs, cmds, viol, hits, streak>>
 IfsEv == /\ Ev.e = "ifs"
          /\ ifs' = Ev.ifs
-         /\ UNCHANGED <<scen, tab, chan, cur, owedStop, down, sched, fu, verifs, lastT, arrs, inbox, cmds, viol, hits, streak>>
+         /\ UNCHANGED <<scen, tab, chan, cur, owedStop, down, sched, fu, lack, verifs, lastT, arrs, inbox, cmds, viol, hits, streak>>
 Skip == /\ Ev.e \in {"adv", "dead", "note", "spawn"}
         /\ viol' = viol
-        /\ UNCHANGED <<scen, tab, chan, cur, owedStop, down, sched, fu, verifs, lastT, ifs, arrs, inbox, cmds, hits, streak>>
+        /\ UNCHANGED <<scen, tab, chan, cur, owedStop, down, sched, fu, lack, verifs, lastT, ifs, arrs, inbox, cmds, hits, streak>>
 
 Init == /\ l = 1 /\ scen = 0 /\ tab = <<>> /\ chan = <<>> /\ cur = <<>> /\ owedStop = {} /\ down = FALSE
-        /\ sched = <<>> /\ fu = <<>> /\ verifs = {} /\ lastT = 0 /\ ifs = <<>> /\ arrs = <<>>
+        /\ sched = <<>> /\ fu = <<>> /\ lack = <<>> /\ verifs = {} /\ lastT = 0 /\ ifs = <<>> /\ arrs = <<>>
         /\ inbox = <<>> /\ cmds = <<>> /\ viol = {} /\ hits = {} /\ streak = 0
 Next == l <= Len(Rec) /\ l' = l + 1 /\ (Reset \/ Call \/ Deliver \/ IfsEv \/ Skip \/ Iter)
 Spec == Init /\ [][Next]_vars
